@@ -176,8 +176,13 @@ def constructor(chk):
                         meta={"replay": rep})
                 chk.add(f"{name}/post/tree-attribute-initialised", [], z3.BoolVal(f.get("_kdtree", 0) is None), func=FQ_INIT, meta={"replay": rep})
                 if aim_kind == "callable":
-                    okc = len(cl) == 1 and len(cl[0]) == 4 and cl[0][0] is f["_points"] and cl[0][1] is f["_atcoords"] and cl[0][2] is atnums and cl[0][3] is f["_indices"]
-                    chk.add(f"{name}/post/aim-callable-gets-points-atcoords-atnums-indices", [], z3.BoolVal(bool(okc)), func=FQ_INIT, meta={"replay": rep})
+                    okc = len(cl) == 1 and len(cl[0]) == 4
+                    goal = z3.BoolVal(False)
+                    if okc:
+                        # value comparison with the arrays the grid ends up with (not object identity)
+                        goal = z3.And(framework.same_array(cl[0][0], f["_points"], "qp"), framework.same_array(cl[0][1], f["_atcoords"], "qc"),
+                                      framework.same_array(cl[0][2], atnums, "qz"), framework.same_array(cl[0][3], f["_indices"], "qi"))
+                    chk.add(f"{name}/post/aim-callable-gets-points-atcoords-atnums-indices", hy, goal, func=FQ_INIT, meta={"replay": rep}, assumptions=asm)
 
     # aim weights of the wrong size / type
     def bad(eng_, kind):
